@@ -150,8 +150,12 @@ impl Worker {
     }
 
     fn kill(mut self) -> String {
+        let pid = self.child.id();
         let _ = self.child.kill();
         let st = self.child.wait();
+        // the worker's scratch files (commit-graph / midx are opened from disk)
+        let base = std::env::var("VERIF_SCRATCH").unwrap_or_else(|_| "/verif/.scratch".to_string());
+        let _ = std::fs::remove_dir_all(std::path::PathBuf::from(base).join(format!("c06-files-{pid}")));
         let err = self.stderr.recv_timeout(Duration::from_secs(5)).unwrap_or_default();
         use std::os::unix::process::ExitStatusExt;
         let sig = st.ok().and_then(|s| s.signal()).map(|s| format!("signal {s}")).unwrap_or_else(|| "exit".into());
